@@ -71,6 +71,10 @@ MAP = [
  ("RIP flood fill indexes outside the screen", "C20", "!|v|B|F0000VB (empty viewport) and !|v1H0LHLB2|F2MA01H (viewport below the window): flood fill indexes fill rows / screen out of bounds"),
  ("IGS filled ellipse repaints a row once per unit", "C20", "G#Q6,0,9999,0: 6.4 million pixel writes for one command"),
  ("IGS screen grab and blit loop over", "C20", "G#G0,0,0,0,999,21447,0,0: 21 million pixel copies; screen-to-memory grab of 32767x32767 asks for 1 GiB (allocation refusal)"),
+ ("undo of add_floating_layer restores the layer's own role", "C08", "add_floating_layer() on an ordinary layer 'L0'; undo - the layer stays renamed to 'Floating selection' with role PastePreview"),
+ ("undo of add_font / add_ansi_font into an occupied font slot", "C08", "document with fonts 0,1,5: add_ansi_font(1); undo - font slot 1 is gone"),
+ ("undo of change_font_slot onto an occupied slot", "C08", "document with fonts 0,1,5: change_font_slot(1,5); undo - the font that was in slot 5 is lost"),
+ ("set_font / set_ansi_font / set_sauce_font record the font of the caret's page", "C08", "switch_to_font_page(1); set_font(custom); undo - slot 1 holds a copy of font 0; replace_font_usage(0,5); set_ansi_font(1); undo - slot 5 stays in the font table"),
  ("RIP button drawing visits every pixel of a button far larger", "C20", "!|R|1BZD00XMFZRLZ5|1U: about ten million put_pixel calls for one button"),
 ]
 
